@@ -50,6 +50,16 @@ pub mod diagn {
         pub open spec fn errors(&self) -> nat { count_errors(self.messages@) }
         pub open spec fn parents(&self) -> nat { self.parents@.len() }
     }
+    /// C13: `r` is `m` wrapped in the contexts ps[i..], the outermost context (the one pushed first: the user's
+    /// line) on top, each layer carrying its context's text, kind and location and exactly one inner message
+    pub open spec fn nested_in(r: Message, ps: Seq<Message>, i: int, m: Message) -> bool
+        decreases ps.len() - i
+    {
+        if i < 0 || i >= ps.len() { r == m } else {
+            r.descr@ == ps[i].descr@ && r.kind == ps[i].kind && r.span == ps[i].span && r.short_excerpt == ps[i].short_excerpt
+            && r.inner@.len() == 1 && nested_in(r.inner@[0], ps, i + 1, m)
+        }
+    }
     impl Clone for Message {
         #[verifier::external_body]
         fn clone(&self) -> (r: Message) ensures r == *self { unimplemented!() }
